@@ -74,7 +74,25 @@ def render_action(a):
         return "(fork %s %s (%s))" % (render_action(a["left"]), render_action(a["right"]), " ".join(a["trig"]))
     if t == "raw":
         return a["text"]
+    if t == "alias":   # {"t":"alias","n":name,"a":definition}: rendered as a reference, defined by render_kbd in a defalias
+        return "@" + a["n"]
     raise ToolError("render_action: unknown %r" % (a,))
+
+
+def collect_aliases(a, acc):
+    """alias nodes below action a, definitions before uses (an alias may only refer to aliases defined earlier)"""
+    if isinstance(a, dict):
+        for v in a.values():
+            if isinstance(v, dict):
+                collect_aliases(v, acc)
+            elif isinstance(v, list):
+                for x in v:
+                    collect_aliases(x, acc)
+        if a.get("t") == "alias":
+            if a["n"] in acc and acc[a["n"]] != a["a"]:
+                raise ToolError("alias %s described with two definitions" % a["n"])
+            acc.setdefault(a["n"], a["a"])
+    return acc
 
 
 def render_macro_item(i):
@@ -99,8 +117,29 @@ def render_kbd(desc):
     out.append("(defsrc " + " ".join(desc["keys"]) + ")")
     for x in desc.get("extra", []):
         out.append(x)
+    al = {}
+    for layer in desc["layers"]:
+        for k in desc["keys"]:
+            collect_aliases(layer.get(k), al)
+    if al:
+        out.append("(defalias " + " ".join("%s %s" % (n, render_action(a)) for n, a in al.items()) + ")")
+    # optional desc["syntax"]: per layer "layer" (deflayer, the default), "map" (deflayermap listing every defsrc key) or
+    # "sparse" (deflayermap that leaves the transparent entries out; with block-unmapped-keys an unlisted key is not
+    # documented to be transparent, so "sparse" is then written as "map").  The layers stay in description order: the
+    # documentation identifies a layer by its name and the first layer of the file is the base layer, whichever syntax.
+    syn = desc.get("syntax") or []
+    block = desc.get("defcfg", {}).get("block-unmapped-keys", "no") == "yes"
     for i, layer in enumerate(desc["layers"]):
-        out.append("(deflayer %s %s)" % (lname(i), " ".join(render_action(layer.get(k, {"t": "trans"})) for k in desc["keys"])))
+        s = syn[i] if i < len(syn) else "layer"
+        if s == "layer":
+            out.append("(deflayer %s %s)" % (lname(i), " ".join(render_action(layer.get(k, {"t": "trans"})) for k in desc["keys"])))
+        elif s in ("map", "sparse"):
+            prs = [(k, layer.get(k, {"t": "trans"})) for k in desc["keys"]]
+            if s == "sparse" and not block:
+                prs = [(k, a) for k, a in prs if a.get("t") != "trans"]
+            out.append("(deflayermap (%s) %s)" % (lname(i), " ".join("%s %s" % (k, render_action(a)) for k, a in prs)))
+        else:
+            raise ToolError("render_kbd: unknown layer syntax %r" % (s,))
     return "\n".join(out) + "\n"
 
 
@@ -119,6 +158,8 @@ def c04_action(a):
         return {"t": t, "l": a["l"]}
     if t == "relkey":
         return {"t": "relkey", "kc": code(a["k"])}
+    if t == "alias":    # docs (Aliases): @name stands for the action it was defined as
+        return c04_action(a["a"])
     raise ToolError("not in the C04 fragment: %r" % (a,))
 
 
